@@ -618,8 +618,10 @@ func (g *c35G) genRTMP() *c35Input {
 			if metaPayload != nil {
 				write(&message.DataAMF0{ChunkStreamID: 4, MessageStreamID: 0x1000000, Payload: metaPayload}, "onMetaData")
 			}
-			// sequence headers
-			if !g.odd(12) {
+			// sequence headers: audio+video, video only or audio only are all ordinary publishers
+			tracks := g.pick("av", "av", "av", "av", "v", "a")
+			hasV, hasA := tracks != "a", tracks != "v"
+			if hasV && !g.odd(12) {
 				sps, pps := c35SPS, c35PPS
 				if g.odd(8) {
 					sps = g.pickBytes([]byte{0x67}, []byte{}, []byte{0x67, 0x42}, bytes.Repeat([]byte{0x67}, 300), []byte{0x67, 0x64, 0x00, 0x0a, 0xff, 0xff, 0xff, 0xff})
@@ -629,7 +631,7 @@ func (g *c35G) genRTMP() *c35Input {
 				avcc.SetType(mp4.BoxTypeAvcC())
 				write(&message.Video{ChunkStreamID: message.VideoChunkStreamID, MessageStreamID: 0x1000000, Codec: message.CodecH264, IsKeyFrame: true, Type: message.VideoTypeConfig, AVCConfig: avcc}, "video-config")
 			}
-			if !g.odd(12) {
+			if hasA && !g.odd(12) {
 				write(&message.Audio{ChunkStreamID: message.AudioChunkStreamID, MessageStreamID: 0x1000000, Codec: message.CodecMPEG4Audio, Rate: message.AudioRate44100, Depth: message.AudioDepth16, IsStereo: true, AACType: message.AudioAACTypeConfig,
 					AACConfig: &mpeg4audio.AudioSpecificConfig{Type: mpeg4audio.ObjectTypeAACLC, SampleRate: 44100, ChannelConfig: 2, ChannelCount: 2}}, "audio-config")
 			}
@@ -642,6 +644,12 @@ func (g *c35G) genRTMP() *c35Input {
 			step := 700 * time.Millisecond
 			for i := 0; i < nFrames; i++ {
 				k := g.x.Intn(3)
+				switch {
+				case !hasV && !g.odd(10):
+					k = 2
+				case !hasA && !g.odd(10):
+					k = 0
+				}
 				if g.odd(6) {
 					k = 3
 				}
@@ -1029,7 +1037,7 @@ func (g *c35G) genMoQ() *c35Input {
 	in := &c35Input{L: "moqquic", K: "quic", Proto: "moq", Cls: "moq-quic-" + sc.Flow, MoQ: &sc}
 	if wt {
 		in.L, in.K, in.Cls = "moqhttp3", "wt", "moq-wt-"+sc.Flow
-		p := g.path()
+		p := g.x.MoQPath(sc.Flow)
 		in.WTPath = p
 		if g.odd(5) {
 			in.WTPath = g.pick(p+"/moq", p+"/", p+"?token=x", "", "moq", "/moq", p+"/moq/moq")
